@@ -4,12 +4,17 @@ package main
 
 import (
 	"bufio"
+	"bytes"
+	"net"
+	"net/http"
 	"encoding/binary"
 	"encoding/hex"
+	"encoding/json"
 	"fmt"
 	"io"
 	"os"
 	"sort"
+	"strconv"
 	"strings"
 	"sync/atomic"
 	"time"
@@ -559,4 +564,192 @@ func (s *Srv) Close() {
 		s.E.Stop()
 	}
 	os.RemoveAll(s.E.Dir)
+}
+
+// Recent queries the recent-reports endpoint for a device key: the reply must carry the device's whole
+// window and a signature of this server over the JSON rendering of the reports.
+func (s *Srv) Recent(key glow.PublicKey) string {
+	st, body, err := s.E.Get("/api/v1/recent-reports?publicKey=" + hx(key[:]))
+	var obs string
+	switch {
+	case err != nil:
+		obs = "ERR:" + err.Error()
+	case st != 200:
+		obs = "refused"
+	default:
+		var resp server.RecentReportsResponse
+		if derr := json.Unmarshal(body, &resp); derr != nil {
+			obs = "ERR:json:" + derr.Error()
+			break
+		}
+		signed, _ := json.Marshal(&resp.Reports)
+		if !glow.Verify(s.E.S.PublicKey(), signed, resp.Signature) {
+			obs = "BADSIG "
+		}
+		var slots []string
+		var zero glow.EquipmentReport
+		for j := range resp.Reports {
+			if resp.Reports[j] != zero {
+				slots = append(slots, strconv.Itoa(j)+"."+hex.EncodeToString(resp.Reports[j].Serialize()))
+			}
+		}
+		obs += fmt.Sprintf("off=%d reports=%s", resp.TimeslotOffset, strings.Join(slots, ","))
+	}
+	cls := "reply"
+	if obs == "refused" || strings.HasPrefix(obs, "ERR") || strings.HasPrefix(obs, "BADSIG") {
+		cls = strings.Fields(obs + " x")[0]
+	}
+	s.T.Count("recent:" + cls[:min(12, len(cls))])
+	if len(obs) > 200 && !s.Full {
+		obs = "#" + fnv64(obs)
+	}
+	s.T.Line("srv.recent key=%s => %s", hx(key[:]), obs)
+	return obs
+}
+
+// Equipment queries the equipment endpoint.
+func (s *Srv) Equipment() string {
+	st, body, err := s.E.Get("/api/v1/equipment")
+	var obs string
+	switch {
+	case err != nil:
+		obs = "ERR:" + err.Error()
+	case st != 200:
+		obs = "refused"
+	default:
+		var resp server.EquipmentResponse
+		if derr := json.Unmarshal(body, &resp); derr != nil {
+			obs = "ERR:json:" + derr.Error()
+			break
+		}
+		var ids []int
+		for id := range resp.EquipmentDetails {
+			ids = append(ids, int(id))
+		}
+		sort.Ints(ids)
+		var devs []string
+		for _, id := range ids {
+			ea := resp.EquipmentDetails[uint32(id)]
+			devs = append(devs, fmt.Sprintf("%d:%s", id, hex.EncodeToString(ea.Serialize())))
+		}
+		obs = strings.Join(devs, ";")
+	}
+	s.T.Count("equipment")
+	s.T.Line("srv.equipment => %s", obs)
+	return obs
+}
+
+// Servers queries the authorized-servers listing (GET).
+func (s *Srv) Servers() string {
+	st, body, err := s.E.Get("/api/v1/authorized-servers")
+	var obs string
+	switch {
+	case err != nil:
+		obs = "ERR:" + err.Error()
+	case st != 200:
+		obs = "refused"
+	default:
+		var resp server.AuthorizedServersResponse
+		if derr := json.Unmarshal(body, &resp); derr != nil {
+			obs = "ERR:json:" + derr.Error()
+			break
+		}
+		var b []byte
+		for _, a := range resp.AuthorizedServers {
+			a := a
+			b = append(b, a.Serialize()...)
+		}
+		obs = hx(b)
+	}
+	s.T.Count("servers")
+	s.T.Line("srv.servers => %s", obs)
+	return obs
+}
+
+// HTTP sends a request that no handler can accept. Only two things are observed: that it is answered
+// at all (net/http turns a handler panic into a closed connection) and the state afterwards.
+func (s *Srv) HTTP(method, path string, body []byte) string {
+	req, err := http.NewRequest(method, s.E.url(path), bytes.NewReader(body))
+	obs := "answered"
+	status := 0
+	if err != nil {
+		obs = "ERR:request:" + err.Error()
+	} else {
+		req.Header.Set("Content-Type", "application/json")
+		resp, err := httpClient.Do(req)
+		if err != nil {
+			obs = "ERR:" + err.Error()
+		} else {
+			io.Copy(io.Discard, resp.Body)
+			resp.Body.Close()
+			status = resp.StatusCode
+		}
+	}
+	s.T.Count(fmt.Sprintf("http:%s:%d", method, status))
+	if s.Full {
+		s.T.Line("srv.http m=%s path=%s body=%s => %s", method, hx([]byte(path)), hx(body), obs)
+		s.T.Line("srv.snap => %s", s.snapWithDisk())
+		return obs
+	}
+	s.T.Line("srv.http m=%s path=%s body=%s => %s%s", method, hx([]byte(path)), hx(body), obs, s.after())
+	return obs
+}
+
+// TCPShort opens a sync connection, sends fewer than the four request bytes and half-closes.
+func (s *Srv) TCPShort(b []byte) string {
+	_, tcp, _ := s.E.S.Ports()
+	obs := "empty"
+	conn, err := net.DialTimeout("tcp", fmt.Sprintf("127.0.0.1:%d", tcp), 5*time.Second)
+	if err != nil {
+		obs = "ERR:dial:" + err.Error()
+	} else {
+		conn.Write(b)
+		conn.(*net.TCPConn).CloseWrite()
+		conn.SetReadDeadline(time.Now().Add(10 * time.Second))
+		got, rerr := io.ReadAll(conn)
+		conn.Close()
+		if rerr != nil {
+			obs = "ERR:read:" + rerr.Error()
+		} else if len(got) != 0 {
+			obs = "reply:" + hx(got)
+		}
+	}
+	s.T.Count("tcpshort")
+	if s.Full {
+		s.T.Line("srv.tcpshort b=%s => %s", hx(b), obs)
+		s.T.Line("srv.snap => %s", s.snapWithDisk())
+		return obs
+	}
+	s.T.Line("srv.tcpshort b=%s => %s%s", hx(b), obs, s.after())
+	return obs
+}
+
+// RegisterFault submits a correctly signed registration while the key file cannot be written (a
+// directory sits at its path). The order must be refused and leave no trace: a key that was not
+// persisted must not be honoured.
+func (s *Srv) RegisterFault(key glow.PublicKey, sig glow.Signature) string {
+	path := s.E.Dir + "/gcaPubKey.dat"
+	if _, err := os.Stat(path); err == nil {
+		return "skipped"
+	}
+	if err := os.Mkdir(path, 0755); err != nil {
+		return "skipped"
+	}
+	gr := server.GCARegistration{GCAKey: key, Signature: sig}
+	st, _, err := s.E.PostJSON("/api/v1/register-gca", gr)
+	os.Remove(path)
+	obs := "refused"
+	if err == nil && st == 200 {
+		obs = "ok"
+	} else if err != nil {
+		obs = "ERR:" + err.Error()
+	}
+	s.T.Count("registerfault:" + obs)
+	if s.Full {
+		s.T.Line("srv.noeffect what=register-with-unwritable-key-file key=%s => %s", hx(key[:]), obs)
+		s.T.Line("srv.snap => %s", s.snapWithDisk())
+		return obs
+	}
+	s.T.Line("srv.noeffect what=register-with-unwritable-key-file key=%s => %s%s", hx(key[:]), obs, s.after())
+	return obs
 }
